@@ -333,7 +333,8 @@ func intMul(a, b Int) Object {
 		absB = -b
 	}
 	// A crude but effective test!
-	if absA <= sqrtIntMax && absB <= sqrtIntMax {
+	// (absA and absB are still negative if a or b is IntMin)
+	if absA >= 0 && absB >= 0 && absA <= sqrtIntMax && absB <= sqrtIntMax {
 		return Int(a * b)
 	}
 	aBig := big.NewInt(int64(a))
